@@ -661,8 +661,13 @@ class ConvexPolyhedron(Polyhedron):
 
         """
         _, principal_axes = np.linalg.eigh(self.inertia_tensor)
+        # The eigenvectors may form a left-handed basis; flip one axis so that the
+        # reorientation is a proper rotation and never mirrors the shape.
+        if np.linalg.det(principal_axes) < 0:
+            principal_axes[:, 0] *= -1
         self._vertices = np.dot(self._vertices, principal_axes)
         self._sort_simplices()
+        self._find_equations()
 
     @property
     def mean_curvature(self):
